@@ -753,7 +753,10 @@ theorem guardZeroDiv_ok {cfg : EulerCfg} {run : Content → Except Err (Content 
   · cases h
   · split at h
     · cases h
-    · next hz => simp only [Except.ok.injEq, Prod.mk.injEq] at h; exact Or.inl ⟨h.1.symm, h.2.symm, hz⟩
+    · next hz =>
+      simp only [show Generated.C09.workersCatchZeroDivision = true from by decide, if_true, Except.ok.injEq,
+        Prod.mk.injEq] at h
+      exact Or.inl ⟨h.1.symm, h.2.symm, hz⟩
     · exact Or.inr h
 
 theorem guardZeroDiv_some {cfg : EulerCfg} {run : Content → Except Err (Content × Option (List Seg))} {c c' : Content}
